@@ -32,7 +32,8 @@ Fixpoint ufind (c : N) (m : umap) : option (list N) :=
 (* ---- Python exceptions the model can exhibit ------------------------------------------- *)
 Inductive exn :=
 | IndexError | ValueError | AttributeError | TypeError | StopIteration
-| UnicodeDecodeError | RecursionError | SQLParseError | NotImplementedError | LookupError.
+| UnicodeDecodeError | RecursionError | SQLParseError | NotImplementedError | LookupError
+| Stuck (* the model does not cover this situation (never equals an implementation outcome) *).
 
 Inductive res (A : Type) := Ok (a : A) | Err (e : exn).
 Arguments Ok {A} a.
